@@ -2,6 +2,7 @@ package main
 
 import (
 	"go/types"
+	"strings"
 
 	"golang.org/x/tools/go/ssa"
 )
@@ -401,6 +402,35 @@ func (p *Program) CallSitesOf(fn *ssa.Function) []callSite {
 					if t == fn {
 						out = append(out, callSite{caller: g, instr: ins})
 					}
+				}
+			}
+		}
+	}
+	return out
+}
+
+// boundWrappersOf: the synthetic bound-method wrappers (x.m used as a value) of method fn
+// that the repository creates.
+func boundWrappersOf(p *Program, fn *ssa.Function) []*ssa.Function {
+	if fn == nil || fn.Object() == nil {
+		return nil
+	}
+	seen := map[*ssa.Function]bool{}
+	var out []*ssa.Function
+	for _, g := range p.srcFuncs {
+		for _, b := range g.Blocks {
+			for _, ins := range b.Instrs {
+				mc, ok := ins.(*ssa.MakeClosure)
+				if !ok {
+					continue
+				}
+				w, ok := mc.Fn.(*ssa.Function)
+				if !ok || seen[w] || w.Synthetic == "" || !strings.HasSuffix(w.Name(), "$bound") {
+					continue
+				}
+				if w.Object() == fn.Object() {
+					seen[w] = true
+					out = append(out, w)
 				}
 			}
 		}
